@@ -13,6 +13,16 @@ type closureInfo struct {
 	binds []Value
 }
 
+// addCaptured records the values a closure captured (with their static types) on an event.
+func (ev *Event) addCaptured(ci *closureInfo) {
+	for i, b := range ci.binds {
+		if ci.fn != nil && i < len(ci.fn.FreeVars) {
+			ev.Extra = append(ev.Extra, b)
+			ev.ExtraT = append(ev.ExtraT, ci.fn.FreeVars[i].Type())
+		}
+	}
+}
+
 // calleeName returns the lookup key for contracts / events of a call.
 //   static function:   "service.(*natmap).Add", "io.ReadFull", "(*sync.Mutex).Lock"
 //   interface invoke:  "net.PacketConn.ReadFrom" (interface type name + method)
@@ -148,6 +158,16 @@ func (c *Ctx) execCall(s *State, in ssa.Instruction, cc *ssa.CallCommon, res ssa
 		evName = fc.Event
 	}
 	ev := Event{Name: evName, Recv: recv, Args: args, PC: len(s.pc), Pos: pos}
+	for _, a := range args {
+		if sc, ok := a.(Sc); ok {
+			if ci, ok := c.eng.closures[sc.T.S]; ok {
+				ev.addCaptured(ci)
+			}
+		}
+	}
+	if callee != nil && len(binds) > 0 {
+		ev.addCaptured(&closureInfo{fn: callee, binds: binds})
+	}
 	for _, a := range cc.Args {
 		ev.ArgT = append(ev.ArgT, a.Type())
 	}
@@ -375,6 +395,33 @@ func (c *Ctx) applyContract(s *State, in ssa.Instruction, fc *FuncContract, call
 		c.oblige(s, "requires", name, g, pos, "precondition of "+fc.Key+": "+rq.Src, props)
 		s.assume(g)
 	}
+	// receiver of a method that is not safe for concurrent use: it must be an object created in this
+	// activation (not yet shared), or the caller must hold a lock exclusively
+	if fc.NotThreadSafe {
+		var rt Term
+		if iv, ok := recv.(If); ok {
+			rt = iv.Val
+		} else if len(args) > 0 {
+			if sc, ok := args[0].(Sc); ok {
+				rt = sc.T
+			}
+		}
+		if rt.S != "" {
+			goal := False
+			if len(s.frames) > 0 {
+				c.d.Fun("birth", []Sort{SInt}, SInt)
+				goal = Gt(app("birth", SInt, rt), IntLit(int64(s.frames[0].entryClock)))
+			}
+			for _, l := range s.locks {
+				if l.Write {
+					goal = True
+				}
+			}
+			name := fmt.Sprintf("%s/guard:unshared@%s#%d:%s", fnKey(in.Parent()), otag(in), c.ordinal("unshared", in), shortName(fc.Key))
+			props := append([]string{"C19"}, c.props...)
+			c.oblige(s, "guard", name, goal, pos, "receiver of "+fc.Key+" (not safe for concurrent use) must be created in this activation or protected by an exclusively held lock", props)
+		}
+	}
 	// frame
 	if fc.Assumed {
 		for _, m := range fc.Modifies {
@@ -394,6 +441,10 @@ func (c *Ctx) applyContract(s *State, in ssa.Instruction, fc *FuncContract, call
 			r = c.pureResult(s, fc, recv, args, rt)
 		} else if fc.Fresh && isRefType(rt) {
 			r = Sc{T: c.newRef(s, "fresh|"+shortName(fc.Key))}
+		} else if _, isIface := rt.Underlying().(*types.Interface); fc.Fresh && isIface {
+			ty := c.freshConst("freshtyp|"+shortName(fc.Key), SInt)
+			s.assume(Gt(ty, IntLit(0)))
+			r = If{Typ: ty, Val: c.newRef(s, "fresh|"+shortName(fc.Key))}
 		} else {
 			s.clock++
 			// returned slices are modelled as views starting at index 0 unless the contract says they alias arguments
@@ -742,7 +793,16 @@ func (c *Ctx) execGo(s *State, x *ssa.Go) {
 		args = append(args, c.val(s, a))
 	}
 	s.seq++
-	s.trace = append(s.trace, Event{Name: "go:" + name, Args: args, PC: len(s.pc), Pos: posOf(c.eng.prog, x), Seq: s.seq})
+	gev := Event{Name: "go:" + name, Args: args, PC: len(s.pc), Pos: posOf(c.eng.prog, x), Seq: s.seq}
+	for _, a := range x.Call.Args {
+		gev.ArgT = append(gev.ArgT, a.Type())
+	}
+	if sc, ok := c.val(s, x.Call.Value).(Sc); ok {
+		if ci, ok := c.eng.closures[sc.T.S]; ok {
+			gev.addCaptured(ci)
+		}
+	}
+	s.trace = append(s.trace, gev)
 	// the spawned function's precondition must hold at the go statement
 	if fc := c.contractFor(name); fc != nil && callee != nil {
 		env := c.callEnv(s, fc, callee, &x.Call, nil, args)
